@@ -1402,6 +1402,8 @@ def rat_binop(op, a, b):
     if not isinstance(a, (Rat, int, float, Fraction, complex, bool)) or not isinstance(
         b, (Rat, int, float, Fraction, complex, bool)
     ):
+        if (a is None or b is None) and op in ("add", "sub", "mult", "div", "floordiv", "mod", "pow", "matmult"):
+            raise Raised("TypeError", f"unsupported operand type(s) for {op}: '{type(a).__name__}' and '{type(b).__name__}'")  # what Python does with None
         raise AnalysisError(f"symbolic binop {op} on {type(a).__name__},{type(b).__name__}")
     A, B = Rat.lift(a), Rat.lift(b)
     try:
